@@ -620,4 +620,5 @@ def rules(tier):
     return [rule_validate, rule_lse, rule_same, rule_dispatch, rule_penalty, rule_ratio, rule_memorder, rule_chain, rule_derivpaths, rule_stop,
             carry.make_clone_rule("R-C12-clone", {"linfa_logistic", "linfa_linear"}, 6), carry.make_setter_rule("R-C12-override", {"linfa_logistic", "linfa_linear"}, 8), c04.make_carry_rule("R-C12-carry", {"LogisticRegressionParams", "TweedieRegressorParams"}, 6),
             extrema.make_rule("R-C12-extrema", "the maxima the logistic log-sum-exp / soft-max are shifted by are real maxima: the folds start from -infinity / min_value or from data", lambda f: f["d"]["krate"] == "linfa_logistic", 1, "the max folds of log_sum_exp / softmax in linfa-logistic"),
-            precision.make_rule("R-C12-precision", lambda f: f["d"]["krate"] in ("linfa_logistic", "linfa_linear"), 100, "linfa-logistic and linfa-linear")]
+            precision.make_rule("R-C12-precision", lambda f: f["d"]["krate"] in ("linfa_logistic", "linfa_linear"), 100, "linfa-logistic and linfa-linear"),
+            carry.make_accessor_rule("R-C12-accessor", {"linfa_logistic", "linfa_linear"}, 8), carry.make_ctor_rule("R-C12-ctor", {"linfa_logistic", "linfa_linear"}, 1)]
